@@ -184,7 +184,8 @@ DECLARED_DIFF = {}
 KEEP = []
 
 # ---- workload ----------------------------------------------------------------------------------------------
-DIFF = ["SmoothConvexFunction", "SmoothStronglyConvexFunction", "SmoothFunction", "LipschitzOperator", "CocoerciveOperator"]
+DIFF = ["SmoothConvexFunction", "SmoothStronglyConvexFunction", "SmoothFunction", "LipschitzOperator", "CocoerciveOperator",
+        "LinearOperator", "SymmetricLinearOperator"]
 NONDIFF = ["ConvexFunction", "ConvexLipschitzFunction", "StronglyConvexFunction", "MonotoneOperator",
            "ConvexIndicatorFunction"]
 
@@ -204,6 +205,11 @@ def build_functions(rng, pep):
         DECLARED_DIFF[id(fobj)] = (cls in DIFF) or bool(kw.get("reuse_gradient"))
         KEEP.append(fobj)
         leaves.append(fobj)
+        if cls == "LinearOperator" and rng.random() < 0.7:
+            # the transpose of a linear operator is a (single-valued) linear operator: same bookkeeping rules
+            DECLARED_DIFF[id(fobj.T)] = True
+            KEEP.append(fobj.T)
+            leaves.append(fobj.T)
     comps = []
     shapes = []
     ncomp = rng.randint(0, 3) if nleaf > 1 else rng.randint(0, 1)
